@@ -486,7 +486,9 @@ def concurrent_gate(chk):
     tests have finished and passed, and must report the verdict afterwards (verdict layer of TraceSelfTest)."""
     exe = build.build_driver("self", SELF_SRCS, variant="fips", wraps=SELF_WRAPS)
     bs = [["selfstall 6 500 0 0 m"], ["selfstall 6 400 1 0 m"], ["selfstall 6 400 0 -1 m"], ["selfstall 3 400 0 -1 a"],
-          ["selfstall 3 400 1 0 b"], ["selfstall 3 400 0 0 c"], ["selfstall 3 400 1 0 g"], ["selfstall 3 400 0 -1 k"]]
+          ["selfstall 3 400 1 0 b"], ["selfstall 3 400 0 0 c"], ["selfstall 3 400 1 0 g"], ["selfstall 3 400 0 -1 k"],
+          # transient fault: the first run fails, any (illegitimate) re-run would pass - the failed verdict must stick
+          ["selfstall 4 400 1 0 m 0 0"], ["selfstall 3 400 0 -1 t 0 0"], ["selfstall 3 400 2 0 k 0 0"]]
     jobs = [{"name": "gate-conc-%d" % i, "behaviours": bs[i::4], "driver": "self"} for i in range(4)]
     outs = run_jobs(jobs, exe, "TraceSelfTest")
     keep = {"success-before-self-tests-finished-and-passed", "threads-observe-different-verdicts", "unexpected-return-value"}
@@ -618,7 +620,7 @@ def check_c17(tier, seed, replay=None, selftest=False):
     stall = 2500 if tier == "quick" else 8000
     stalls = ["selfstall 4 %d 0 0 t" % stall, "selfstall 3 300 1 0 k", "selfstall 3 300 0 -1 t", "selfstall 2 200 -9 -9 t",
               "selfstall 3 %d 0 -1 k" % stall, "selfstall 8 400 0 0 k", "selfstall 6 600 0 0 m", "selfstall 6 600 1 0 m",
-              "selfstall 3 500 0 -1 a", "selfstall 3 500 0 0 g"]
+              "selfstall 3 500 0 -1 a", "selfstall 3 500 0 0 g", "selfstall 4 400 1 0 m 0 0", "selfstall 3 400 0 -1 t 0 0"]
     chk.cov["free_running_stall_behaviours"] = stalls
     beh = stalls + beh
     nj = 14
